@@ -148,6 +148,20 @@ func (e *localEnd) again(id uint32) (Tag, error) {
 	return r.Tag, err
 }
 
+// cleanupPartial closes every client connection and stops only the servers selected by mask
+// (bit i = the i-th server started on this end); the others are left for the library to end.
+func (e *localEnd) cleanupPartial(mask int) {
+	e.conns.Range(func(_, v any) bool { v.(*grpc.ClientConn).Close(); return true })
+	e.mu.Lock()
+	for i, s := range e.stops {
+		if mask&(1<<uint(i)) != 0 {
+			s()
+		}
+	}
+	e.stops = nil
+	e.mu.Unlock()
+}
+
 func (e *localEnd) cleanup() {
 	e.conns.Range(func(_, v any) bool { v.(*grpc.ClientConn).Close(); return true })
 	e.mu.Lock()
